@@ -16,7 +16,7 @@ for p in $props; do
     if ! (cd "$d/repo" && go build ./... >/dev/null 2>&1); then
       echo "SKIP  $p $patch (does not build)"; rm -rf "$d"; continue
     fi
-    out=$(CEDAR_REPO="$d/repo" CEDAR_OUT="$d/out" bin/cedarvc check -prop "$p" 2>&1); rc=$?
+    out=$(CEDAR_FAILFAST=1 CEDAR_REPO="$d/repo" CEDAR_OUT="$d/out" bin/cedarvc check -prop "$p" 2>&1); rc=$?
     if [ $rc -eq 1 ] && echo "$out" | grep -q "^VIOLATION property=$p"; then
       echo "CAUGHT $p $patch :: $(echo "$out" | grep 'failed obligation' | sed 's/ \[.*//' | tr '\n' ';' | cut -c1-300)"
     else
